@@ -87,7 +87,7 @@ def java_tlc(args, env=None, timeout=1800, xmx='3g', cwd=None):
 # ----------------------------------------------------------------------------------------------
 MC_DEFAULTS = dict(NA=2, NB=2, Profile='one', MaxLen=4, MaxCnt=2, MaxCap=16, MaxSize=1000,
                    IsStd=False, POCCA=False, POCMA=False, POCS=False, AE=False, SOCCC=0,
-                   Copyable=True, NothrowMove=True, AllocIds=[0], Kinds=[0, 1, 3, 4])
+                   Copyable=True, NothrowMove=True, AllocIds=[0], Kinds=[0, 1, 3, 4], Pairs=False)
 
 
 def tla_const(v):
